@@ -2,7 +2,7 @@
 """Prints the markdown table of DESIGN.md §10.6 from seeded/*/meta.json and patch.diff."""
 import json, glob, os, re
 rows = []
-for d in sorted(glob.glob(os.path.join(os.path.dirname(os.path.dirname(os.path.abspath(__file__))), 'seeded', '*'))):
+for d in sorted(glob.glob(os.path.join(os.path.dirname(os.path.dirname(os.path.abspath(__file__))), 'seeded', 'C*'))):
     m = json.load(open(os.path.join(d, 'meta.json')))
     patch = open(os.path.join(d, 'patch.diff')).read()
     files = sorted(set(re.findall(r'^\+\+\+ b/(\S+)', patch, re.M)))
